@@ -41,6 +41,7 @@ proof fn vacuity_pre(f: v1::Function, cs: Seq<v1::Constraint>, ps: Seq<v1::Param
 ''', 'vacuity: lemma premises')
     asm.raw(common.FOOTER)
     return dict(
+        composes_with={'C02': '*'},      # the Function operators used here are the contracts proved in C02
         min_items=6,
         trusted_base=common.TRUSTED_COMMON + common.T4_COLLECTIONS + [
             'T5 ASSUMED callee contracts (dispatch layer decided in C02): Function + Function, Function * Function, &Parameter * Function are pure and compute sum / product up to an explicit epsilon-drop remainder; Function::zero; Instance::defined_ids',
